@@ -10,7 +10,8 @@ import json
 import os
 from checklib import sh, parse_kv_line
 
-PRIMARY = ["skip-dropped", "platform-dropped", "language-dup", "suffix-lost", "preamble-deleted", "filtered-expectation-changed"]
+PRIMARY = ["skip-dropped", "platform-dropped", "language-dup", "suffix-lost", "preamble-deleted", "filtered-expectation-changed",
+           "passing-changed-same-quote"]
 WHAT = {
     "skip-dropped": "--update drops a :skip test from the rewritten corpus file",
     "platform-dropped": "--update drops a test whose :platform(..) does not match this OS",
@@ -22,6 +23,11 @@ WHAT = {
     "key-changed": "a test's name/attributes/input differ after --update",
     "missing-tests": "tests are missing after --update",
     "extra-tests": "additional tests appear after --update",
+    "passing-changed": "a test that passed as written (expectation = the parser's rendering, with or without error nodes) has a "
+                       "different expectation after --update (the rewrite must only re-format it)",
+    "passing-changed-same-quote": "a test that passed as written has a different (broken) expectation after --update, and every such "
+                                  "expectation contains a quoted quote character of the same kind ((MISSING \"\"\") / (UNEXPECTED ''')): "
+                                  "format_sexp closes the token at the inner quote",
     "passes": "an updated error-free test does not pass afterwards",
     "idempotent": "a second --update changes the file again",
     "delims-changed": "header/divider delimiter lengths of a test differ after --update",
@@ -84,7 +90,7 @@ def run(ctx):
     for line in open(ops):
         if line.startswith("fixes "):
             bits = line.split()[1:]
-            fixes = dict(zip(("keepUnrun", "oneCorrection", "keepSuffixPreamble", "quoteReset", "keepCstFiltered"),
+            fixes = dict(zip(("keepUnrun", "oneCorrection", "keepSuffixPreamble", "quoteReset", "keepCstFiltered", "sameQuote"),
                              [b == "1" for b in bits]))
             break
     ctx.coverage["model_follows_repairs (probed on the real code)"] = fixes
